@@ -60,9 +60,9 @@ pub fn generate(rng: &mut Rng, tier: &str, shard: usize, nshards: usize, out: &m
         if k > 200_000_000 && !thorough { continue; }
         emit(format!("C02\thbl\t{}\t{}\t{}", nb, j, k), &mut n);
     }
-    let nk = if thorough { 20_000 } else { 1_500 };
+    let nk = if thorough { 6_000 } else { 1_500 };
     for i in 0..nk {
-        let kmax = if rng.chance(1, 4) { 10_000_000 } else { 20_000 };
+        let kmax = if rng.chance(1, 12) { 10_000_000 } else { 20_000 };
         let k = if i < 400 { i as u64 + 1 } else { 1 + rng.below(kmax) };
         let fl = ((k as f64) * 3.321928094887362) as u64;
         for j in [0u64, 1, 37] {
